@@ -128,8 +128,13 @@ func verifInvariant(s *SharedFile, w *verifWorld, what string) {
 // H1: one operation from an arbitrary valid state preserves the invariant
 // and never closes a descriptor under a reader (except explicit Close).
 func VerifHarness_C24_step() {
-	s, w := verifArbitraryState(nil)
+	var pool *fdpool.Pool
+	if verifrt.NondetBool() {
+		pool = fdpool.New(1)
+	}
+	s, w := verifArbitraryState(pool)
 	verifInvariant(s, w, "pre")
+	preRefs, preLatch, preClosed, preFile := s.refs, s.immediateClose, s.closed, s.file
 	switch verifrt.Range(0, 5) {
 	case 0:
 		f, err := s.Acquire()
@@ -146,6 +151,20 @@ func VerifHarness_C24_step() {
 			s.Release()
 		} else {
 			s.Release() // spurious release: must be a no-op
+		}
+		if preRefs == 1 && !preClosed && preFile != nil {
+			if preLatch {
+				// ReleaseNow arrived while the descriptor was pinned (pool
+				// eviction with every member pinned): the last Release
+				// closes it at once, pool or no pool.
+				verifrt.Assert(s.file == nil && w.openNow == 0, "c24-latched-close-fires-on-last-release")
+				verifrt.Assert(!s.immediateClose, "c24-latch-consumed")
+			} else if pool != nil {
+				verifrt.Assert(s.file == preFile && w.openNow == 1, "c24-pooled-idle-stays-open")
+			}
+		}
+		if preRefs > 1 && !preClosed {
+			verifrt.Assert(s.file == preFile && w.openNow == 1, "c24-release-keeps-descriptor-while-readers-remain")
 		}
 	case 2:
 		_ = s.ReleaseNow()
@@ -264,4 +283,48 @@ func VerifHarness_C24_pool() {
 		}
 	}
 	verifrt.Reach("c24-pool")
+}
+
+// H4: real SharedFiles registered in one real Pool; a solver-chosen sequence
+// of Acquire/Release/ReleaseNow on solver-chosen members. After every
+// operation: no descriptor was closed under a reader, and the number of open
+// descriptors is at most capacity + members currently pinned by readers.
+func VerifHarness_C24_pooled_files() {
+	c := verifrt.Range(1, verifrt.Param("CAP"))
+	p := fdpool.New(c)
+	n := verifrt.Param("MEMBERS")
+	files := make([]*SharedFile, n)
+	worlds := make([]*verifWorld, n)
+	for i := range files {
+		worlds[i] = &verifWorld{}
+		files[i] = NewWithPool(worlds[i].open, time.Millisecond, p)
+	}
+	steps := verifrt.Param("STEPS")
+	for k := 0; k < steps; k++ {
+		i := verifrt.Range(0, n-1)
+		s, w := files[i], worlds[i]
+		switch verifrt.Range(0, 2) {
+		case 0:
+			f, err := s.Acquire()
+			verifrt.Assert(err == nil && f != nil && !f.(*verifFile).closed, "c24-pooled-acquire-returns-open-file")
+			w.readers++
+		case 1:
+			verifrt.Assume(w.readers > 0)
+			w.readers--
+			s.Release()
+		case 2:
+			_ = s.ReleaseNow()
+		}
+		open, pinned := 0, 0
+		for j := range files {
+			verifInvariant(files[j], worlds[j], "pooled")
+			open += worlds[j].openNow
+			if worlds[j].readers > 0 {
+				pinned++
+			}
+		}
+		verifrt.Assert(open <= c+pinned, "c24-pooled-open-le-capacity-plus-pinned")
+		verifrt.Assert(p.Stats().Active <= c, "c24-pooled-lru-within-capacity")
+	}
+	verifrt.Reach("c24-pooled")
 }
